@@ -14,6 +14,19 @@ func srcOf(x *Exec, ins ssa.Instruction) string {
 	return "" // filled lazily by callers that have an expression text
 }
 
+// lineText is the source line a position is on.
+func (x *Exec) lineText(pos token.Pos) string {
+	if !pos.IsValid() {
+		return ""
+	}
+	p := x.P.Prog.Fset.Position(pos)
+	lines := x.P.sourceLines(p.Filename)
+	if p.Line-1 < len(lines) {
+		return lines[p.Line-1]
+	}
+	return ""
+}
+
 func (x *Exec) exprText(pos token.Pos, fallback string) string {
 	if !pos.IsValid() {
 		return fallback
